@@ -573,7 +573,7 @@ def hand_snippets():
 def test_strings():
     out = []
     for f in ["test_parser.py", "test_interpreter.py", "test_infotests.py"]:
-        tree = ast.parse(open("/repo/tests/" + f, encoding="utf-8").read())
+        tree = ast.parse(open(os.environ.get("CKL_REPO", "/repo") + "/tests/" + f, encoding="utf-8").read())
         for node in ast.walk(tree):
             if isinstance(node, ast.Call):
                 for a in list(node.args) + [k.value for k in node.keywords]:
@@ -610,7 +610,7 @@ def main():
         counts[label] = counts.get(label, 0) + 1
 
     nolex = 0
-    mods = sorted(glob.glob("/repo/src/ckl/modules/*.ckl"))
+    mods = sorted(glob.glob(os.environ.get("CKL_REPO", "/repo") + "/src/ckl/modules/*.ckl"))
     base = []
     for m in mods:
         toks = lex(open(m, encoding="utf-8").read())
